@@ -94,6 +94,8 @@ package proxy
 // depends on that order on a correct implementation.
 
 import (
+	"encoding/json"
+	"os"
 	"fmt"
 	"net/http"
 	"runtime"
@@ -1975,4 +1977,12 @@ func TestVerifC04(t *testing.T) {
 			"the order of a discovered list depends on Go map iteration in useService; no event or rule depends on it",
 		},
 	})
+}
+
+func TestVerifC04Dump(t *testing.T) {
+	var seed uint64
+	fmt.Sscan(os.Getenv("C04_DUMP_SEED"), &seed)
+	sc := c04Gen(sim.NewRand(sim.Mix(seed, 1)), "quick")
+	b, _ := json.Marshal(sc)
+	fmt.Println(string(b))
 }
